@@ -101,6 +101,9 @@ func c17OracleR(prop string, n int, overflowSite string, attributable bool, reco
 			if r, ok := e.V.(Rx); ok {
 				got = append(got, r.ID)
 			}
+			if c, ok := e.V.(Changed); ok {
+				vs = append(vs, h.Violation{Class: prop + ":telegram-changed-after-hand-over", Msg: c.String()})
+			}
 		}
 		if len(got) != n {
 			vs = append(vs, h.Violation{Class: prop + ":lost-or-extra", Msg: fmt.Sprintf("received %v, want %d telegrams", got, n)})
@@ -133,6 +136,26 @@ func c17OracleR(prop string, n int, overflowSite string, attributable bool, reco
 		}
 		return vs
 	}
+}
+
+// Changed is logged when a telegram the application received earlier no longer reads as it did: the
+// sequence the application has in hand is then no longer the sequence that was accepted.
+type Changed struct {
+	ID   int
+	Was  string
+	Now  string
+	When string
+}
+
+func (c Changed) String() string {
+	return fmt.Sprintf("telegram %d was accepted as %s; %s it reads %s", c.ID, c.Was, c.When, c.Now)
+}
+
+// MsgTagged is Msg(id) with an additional-information block that names the telegram too.
+func MsgTagged(id int) cemi.Message {
+	m := Msg(id).(*cemi.LDataInd)
+	m.Info = cemi.Info{0x03, 0x02, byte(id), byte(0xA0 + id)}
+	return m
 }
 
 // Accepted marks (router scenarios) the injection of telegram ID into the socket queue.
@@ -436,11 +459,22 @@ func init() {
 				Run: k.f(n), Check: c17Oracle("C17", n, k.site, k.attr),
 			})
 		}
+		// (S: a worker that chooses between several ready select cases 100 times over has 2^100
+		// executions; the flat runs explore every pair of non-default choices)
 		register("both", &h.Scenario{
-			Name: fmt.Sprintf("C17-%s-flat100", k.name), Prop: "C17", P: 0, F: 0, D: -1,
+			Name: fmt.Sprintf("C17-%s-flat100", k.name), Prop: "C17", P: 0, F: 0, D: -1, S: 2,
 			Run: k.f(100), Check: c17Oracle("C17", 100, k.site, k.attr),
 		})
 	}
+	// bursts longer than any small power of two a buffering implementation might start with (8, 16):
+	// the group layer alone, and under the group tunnel; one preemption puts the application's reads
+	// between any two arrivals
+	for _, n := range []int{12, 20} {
+		register("both", &h.Scenario{Name: fmt.Sprintf("C17-grouplayer-isolated-burst%d", n), Prop: "C17", P: 1, F: 0, D: 1, S: 2,
+			Run: c17GroupLayer(n), Check: c17Oracle("C17", n, "", false)})
+	}
+	register("both", &h.Scenario{Name: "C17-grouptunnel-burst12", Prop: "C17", P: 1, F: 0, D: 1, S: 1,
+		Run: c17GroupTunnel(12), Check: c17Oracle("C17", 12, "tunnel.go:", false)})
 	register("both", &h.Scenario{Name: "C17-tunnel-burst3-between-turned-down-frames", Prop: "C17", P: 1, F: 0, D: 1, Run: c17TunnelNoise(3), Check: c17Oracle("C17", 3, "tunnel.go:", true)})
 	register("both", &h.Scenario{Name: "C17-tunnel-burst3-mixed-telegram-shapes", Prop: "C17", P: 1, F: 0, D: 1, Run: c17Mixed(false), Check: c17Oracle("C17", 3, "tunnel.go:", true)})
 	register("both", &h.Scenario{Name: "C17-router-burst3-mixed-telegram-shapes", Prop: "C17", P: 1, F: 0, D: 1, Run: c17Mixed(true), Check: c17Oracle("C17", 3, "router.go:", false)})
@@ -454,7 +488,13 @@ func init() {
 // between the telegrams the peer sends frames the receiver must drop (cut short, wrong version, a
 // cEMI body that is too short). What the application reads must be the telegrams, each once, in
 // order - whatever the socket layer does with the frames it rejects.
-func c17FullStack(router bool) func() {
+func c17FullStack(router bool) func() { return c17FullStackMode(router, true) }
+
+// c17FullStackMode: tcp selects the transport of the tunnel variant. The telegrams carry an
+// additional-information block; every telegram the application has received is looked at again when
+// the next one arrives and at the end (an application that queues telegrams, or is still working on
+// one, when later datagrams come in).
+func c17FullStackMode(router, tcp bool) func() {
 	return func() {
 		defer logChoice()()
 		const n = 3
@@ -472,24 +512,48 @@ func c17FullStack(router bool) func() {
 				}
 			}
 		}
-		var recv func() (interface{}, bool)
+		var recv0 func() (interface{}, bool)
 		var closeFn func()
+		type kept struct {
+			m   interface{}
+			was string
+		}
+		var have []kept
+		recheck := func(when string) {
+			for _, k := range have {
+				if now := deepDump(k.m); now != k.was {
+					mc.Log(Changed{MsgID(k.m), k.was, now, when})
+					return
+				}
+			}
+		}
+		recv := func() (interface{}, bool) {
+			m, ok := recv0()
+			if ok {
+				recheck("when the next telegram was received")
+				// what was accepted is what the gateway / router sent under that number
+				have = append(have, kept{m, deepDump(MsgTagged(MsgID(m)))})
+				recheck("when it was received")
+			}
+			return m, ok
+		}
+		_ = recv
 		if router {
 			r, err := knx.NewRouter("224.0.23.12:3671", knx.RouterConfig{RetainCount: 2})
 			if err != nil {
 				mc.Log(Note("router failed: " + err.Error()))
 				return
 			}
-			recv, closeFn = func() (interface{}, bool) { m, ok := r.Inbound().Recv2(); return m, ok }, r.Close
+			recv0, closeFn = func() (interface{}, bool) { m, ok := r.Inbound().Recv2(); return m, ok }, r.Close
 		} else {
 			cfg := TCfg(100, 350, 100000000)
-			cfg.UseTCP = true
+			cfg.UseTCP = tcp
 			t, err := knx.NewTunnel("192.0.2.99:3671", knxnet.TunnelLayerData, cfg)
 			if err != nil {
 				mc.Log(Note("connect failed: " + err.Error()))
 				return
 			}
-			recv, closeFn = func() (interface{}, bool) { m, ok := t.Inbound().Recv2(); return m, ok }, t.Close
+			recv0, closeFn = func() (interface{}, bool) { m, ok := t.Inbound().Recv2(); return m, ok }, t.Close
 		}
 		junk := [][]byte{
 			{6, 0x10, 0x05, 0x30, 0, 9, 0x29, 0, 0xBC},                                         // routing indication whose cEMI body is too short
@@ -501,13 +565,14 @@ func c17FullStack(router bool) func() {
 				ep.Inject(junk[k-1], nil)
 			}
 			if router {
-				ep.Inject(pack(&knxnet.RoutingInd{Payload: Msg(i)}), nil)
+				ep.Inject(pack(&knxnet.RoutingInd{Payload: MsgTagged(i)}), nil)
 			} else {
-				ep.Inject(pack(&knxnet.TunnelReq{Channel: 7, SeqNumber: uint8(i), Payload: Msg(i)}), nil)
+				ep.Inject(pack(&knxnet.TunnelReq{Channel: 7, SeqNumber: uint8(i), Payload: MsgTagged(i)}), nil)
 			}
 		}
 		mc.Sleep(1 * ms)
 		c17Consumer(n, recv, "fullstack")
+		recheck("after the last telegram was received")
 		// anything beyond the three telegrams?
 		mc.Sleep(5 * ms)
 		extra := mc.NewChan[int](1, "c17.extra")
@@ -526,6 +591,7 @@ func c17FullStack(router bool) func() {
 func init() {
 	register("both", &h.Scenario{Name: "C17-fullstack-router-rejected-frames-between-telegrams", Prop: "C17", P: 0, F: 0, D: -1, Run: c17FullStack(true), Check: c17Oracle("C17", 3, "router.go:", false)})
 	register("both", &h.Scenario{Name: "C17-fullstack-tcp-tunnel-rejected-frames-between-telegrams", Prop: "C17", P: 0, F: 0, D: -1, Run: c17FullStack(false), Check: c17Oracle("C17", 3, "tunnel.go:", false)})
+	register("both", &h.Scenario{Name: "C17-fullstack-udp-tunnel-rejected-frames-between-telegrams", Prop: "C17", P: 0, F: 0, D: -1, Run: c17FullStackMode(false, false), Check: c17Oracle("C17", 3, "tunnel.go:", false)})
 }
 
 // c17Identical: neighbouring telegrams may be identical in every field (a sensor that sends the same
